@@ -12,7 +12,7 @@ from types import SimpleNamespace
 
 from hypothesis import strategies as st
 
-from vlib.harness import Clause, Violation, drive
+from vlib.harness import Rec, Clause, Violation, drive
 
 from outrank.task_summary import outrank_task_result_summary
 
@@ -83,6 +83,12 @@ def table_case(draw, orders=(1, 2, 3), and_bias=False):
         combos = draw(st.lists(st.sampled_from(allc), unique=True, max_size=min(len(allc), 12)))
         if draw(st.booleans()):
             combos = allc[:15]
+        # interactions of another size than the flag (e.g. combinations taken from a reference model) are interactions too
+        if draw(st.integers(0, 2)) == 0:
+            other = 5 - order if order in (2, 3) else 2
+            if len(bases) >= other:
+                allo = list(itertools.combinations(range(len(bases)), other))
+                combos = combos + draw(st.lists(st.sampled_from(allo), unique=True, max_size=min(len(allo), 4)))
     ann_mode = draw(st.sampled_from(['all', 'all', 'none', 'mixed']))
 
     def ann():
@@ -167,8 +173,11 @@ def run_summary(case):
     """Write the table, run the summary task, return (names, singles rows, aggregated rows or None)."""
     names = [_full(e) for e in case['entities']]
     label_full = _full({'parts': [case['label']], 'ann': case['label_ann']})
-    tmp = tempfile.mkdtemp(prefix='c18-')
+    tmp = FORCED_DIR[0] or tempfile.mkdtemp(prefix='c18-')
     try:
+        for stale in ('feature_singles.tsv', 'feature_singles_aggregated.tsv'):
+            if FORCED_DIR[0] and os.path.exists(os.path.join(tmp, stale)):
+                os.unlink(os.path.join(tmp, stale))
         with open(os.path.join(tmp, 'pairwise_ranks.tsv'), 'w', encoding='utf-8') as fh:
             fh.write('FeatureA\tFeatureB\tScore\n')
             for a, b, s in case['rows']:
@@ -190,7 +199,33 @@ def run_summary(case):
             agg = _parse(apath)
         return names, label_full, singles, agg
     finally:
-        shutil.rmtree(tmp, ignore_errors=True)
+        if not FORCED_DIR[0]:
+            shutil.rmtree(tmp, ignore_errors=True)
+
+
+FORCED_DIR = [None]
+
+
+@st.composite
+def rerun_case(draw):
+    """Two ranking tables summarised one after the other in the same process AND the same output folder."""
+    return {'first': draw(table_case()), 'second': draw(table_case(orders=(1, 2, 2, 3), and_bias=True))}
+
+
+def oracle_rerun(case, rec):
+    d = tempfile.mkdtemp(prefix='c18-rerun-')
+    FORCED_DIR[0] = d
+    try:
+        if not _ambiguity(case['first']):
+            run_summary(case['first'])
+        sub = Rec()
+        oracle_singles(case['second'], sub)
+        oracle_aggregated(case['second'], sub)
+        rec.nt(sub.nontrivial, key=case)
+        rec.cls('rerun-same-folder')
+    finally:
+        FORCED_DIR[0] = None
+        shutil.rmtree(d, ignore_errors=True)
 
 
 def _median(v):
@@ -311,7 +346,7 @@ def oracle_aggregated(case, rec):
                             f'(summary: {singles})', kind='C18/aggregated')
 
 
-ORACLES = {'C18/singles': oracle_singles, 'C18/aggregated': oracle_aggregated}
+ORACLES = {'C18/singles': oracle_singles, 'C18/aggregated': oracle_aggregated, 'C18/rerun': oracle_rerun}
 
 
 def run(ctx):
@@ -319,6 +354,7 @@ def run(ctx):
     KNOWN_PLAIN_AND = ctx.known('plain-name-containing-AND')
     drive(ctx, [
         Clause('C18/singles', singles_strategy, oracle_singles, quick=1500, thorough=80000, quick_shards=6),
+        Clause('C18/rerun', rerun_case, oracle_rerun, quick=300, thorough=12000, quick_shards=4),
         Clause('C18/aggregated', aggregated_strategy, oracle_aggregated, quick=1000, thorough=40000, quick_shards=6),
     ])
     ctx.extra['excluded_counts'] = {k: v for k, v in sorted(ctx.stats.classes.items()) if k.startswith('excluded:')}
